@@ -281,6 +281,21 @@ func C08(tier string) int {
 	rootsB := []byte{0, 0x21, 0xff}
 	creds := &checker.Credentials{Client: rig.DefaultClient, RequestID: "r", IP: "10.0.0.1"}
 	var items []c08Item
+	// Every second request below is preceded by one that is refused while its signing root is being computed (a domain of
+	// 31 bytes): whatever such a request leaves behind must not reach the next signature.
+	poisons := 0
+	poison := func(a *rig.Acct) {
+		poisons++
+		if poisons%2 == 0 {
+			return
+		}
+		bad := make([]byte, 31)
+		bad[0] = 7
+		_, sig := r.Signer.SignGeneric(r.Ctx, creds, "Wallet 1/"+a.Name(), nil, &rules.SignData{Domain: bad, Data: c08Root(0x5c)})
+		if len(sig) > 0 {
+			report("malformed-domain-signed", "a generic request with a 31-byte domain was signed", map[string]any{"check": "C08"})
+		}
+	}
 	for _, slot := range vals {
 		for _, idx := range vals {
 			for _, rb := range rootsB {
@@ -295,6 +310,7 @@ func C08(tier string) int {
 						dom := AttDomain(dv)
 						d := &rules.SignBeaconAttestationData{Domain: dom, Slot: slot, CommitteeIndex: idx, BeaconBlockRoot: c08Root(rb),
 							Source: &rules.Checkpoint{Epoch: st[0], Root: c08Root(rb)}, Target: &rules.Checkpoint{Epoch: st[1], Root: c08Root(rb ^ 0xff)}}
+						poison(a)
 						res, sig := r.Signer.SignBeaconAttestation(r.Ctx, creds, name, key, d)
 						items = append(items, c08Item{acct: a, res: res, sig: sig, what: fmt.Sprintf("attestation slot=%d index=%d %d->%d root=%#x dom=%d bykey=%v", slot, idx, st[0], st[1], rb, dv, byKey),
 							root: model.SigningRoot(model.AttestationDataRoot(slot, idx, d.BeaconBlockRoot, st[0], d.Source.Root, st[1], d.Target.Root), dom)})
@@ -305,6 +321,7 @@ func C08(tier string) int {
 				a := r.AddAccount("Wallet 1", "", "pass", true)
 				dom := PropDomain(int(slot % 2))
 				p := &rules.SignBeaconProposalData{Domain: dom, Slot: slot, ProposerIndex: idx, ParentRoot: c08Root(rb), StateRoot: c08Root(rb ^ 0x0f), BodyRoot: c08Root(rb ^ 0xf0)}
+				poison(a)
 				res, sig := r.Signer.SignBeaconProposal(r.Ctx, creds, "", a.PubBytes(), p)
 				items = append(items, c08Item{acct: a, res: res, sig: sig, what: fmt.Sprintf("proposal slot=%d proposer=%d root=%#x", slot, idx, rb),
 					root: model.SigningRoot(model.HeaderRoot(slot, idx, p.ParentRoot, p.StateRoot, p.BodyRoot), dom)})
@@ -315,6 +332,7 @@ func C08(tier string) int {
 				gd[0] = byte(5 + idx%3)
 				gd[31] = byte(slot)
 				g := &rules.SignData{Domain: gd, Data: c08Root(rb)}
+				poison(a)
 				res, sig = r.Signer.SignGeneric(r.Ctx, creds, "Wallet 1/"+a.Name(), nil, g)
 				items = append(items, c08Item{acct: a, res: res, sig: sig, what: fmt.Sprintf("generic root=%#x domain=%x", rb, gd[:6]), root: model.SigningRoot(b32x(g.Data), gd)})
 				classes["generic"] = true
@@ -451,7 +469,7 @@ func C08(tier string) int {
 	run.Coverage = map[string]any{
 		"evaluations":         cells,
 		"distinct_nontrivial": len(classes),
-		"rule":                "singles: attestation/proposal/generic requests over boundary values of slot, index, epochs, proposer index x 3 root fills x 2 domains x addressing with real BLS keys, plus accounts whose names contain slashes beside siblings named like their first component, verified with the BLS library against a signing root computed by an independent sha256 merkleisation; batches: attestation batches and multisign of every listed size x every listed GOMAXPROCS with per-entry data that is distinct as a whole while every single field (slot, committee index, roots, epochs; data and domain for multisign) is shared between some entries, mixed addressing, every fifth account of an attestation batch refused by the rules (it voted for a far later target before), symbolic keys (signature must be byte-equal to the addressed account's signature over the independent signing root; exactly n results and n signatures; signature i is not the one expected at i+1), every fourth size through the gRPC handler; reduced (n, procs) grid repeated with real BLS keys; distinct = request classes and (kind, n, procs) cells",
+		"rule":                "singles: attestation/proposal/generic requests over boundary values of slot, index, epochs, proposer index x 3 root fills x 2 domains x addressing with real BLS keys, every second request preceded by a request that fails while its signing root is computed (31-byte domain), plus accounts whose names contain slashes beside siblings named like their first component, verified with the BLS library against a signing root computed by an independent sha256 merkleisation; batches: attestation batches and multisign of every listed size x every listed GOMAXPROCS with per-entry data that is distinct as a whole while every single field (slot, committee index, roots, epochs; data and domain for multisign) is shared between some entries, mixed addressing, every fifth account of an attestation batch refused by the rules (it voted for a far later target before), symbolic keys (signature must be byte-equal to the addressed account's signature over the independent signing root; exactly n results and n signatures; signature i is not the one expected at i+1), every fourth size through the gRPC handler; reduced (n, procs) grid repeated with real BLS keys; distinct = request classes and (kind, n, procs) cells",
 		"samples":             samples.List(),
 		"exhaustive":          true,
 		"signatures_verified": sigsChecked - int(c08Unsigned.Load()),
